@@ -17,6 +17,7 @@ from ..ref import quat as rq
 PROP = "C13"
 LEVEL = "fault_enumeration"
 SHARDS = {"quick": 16, "thorough": 16}
+THOROUGH_DEPTH = 6      # thorough tier = this many times the base thorough budget (VERIF_DEPTH overrides)
 TIME_CAP = {"quick": 250, "thorough": 2400}
 DEG = np.pi / 180.0
 WINDOW = 12          # faults are enumerated inside the first WINDOW samples
@@ -108,7 +109,7 @@ def generate(rng, tier, shard, nshards):
             mask[st:st + ln] = True
             yield Case(name, "window:first-sample" if st == 0 else "window:interior", g=g, a=a, m=m, dip=dip, sensors=sub, mask=mask)
     for name, (sensors, _, K, K1, tol, _) in FILTERS.items():
-        reps = 2 if tier == "quick" else 12
+        reps = 2 if tier == "quick" else gens.reps(12, tier)
         sensors = sensors.replace("g", "")      # long bursts: accelerometer / magnetometer only (a null rate for 0.5 s is a 15 deg attitude error, not a dropout)
         for i in range(reps):
             k += 1
